@@ -333,7 +333,21 @@ impl<'a> G<'a> {
                 st.n = self.rng.below(40) as u32;
                 st.via = self.rng.below(3) as u8;
             }
-            Op::Nop | Op::TypeProbe => {}
+            Op::TypeProbe => {
+                st.kind = self.rng.below(TP_KINDS as u64) as u8;
+                st.form = self.rng.below(2) as u8;
+                st.sink = self.rng.below(9) as u8; // range form of the splice probe
+                let (s, e) = self.range_raw(len);
+                let (a, b) = self.range_for_form(st.sink, s, e, len);
+                st.a = a;
+                st.b = b;
+                if st.kind != TP_SPLICE {
+                    st.a = self.rng.below(len as u64 + 1);
+                }
+                st.n = self.rng.below(4) as u32;
+                st.c = self.rng.below(4);
+            }
+            Op::Nop => {}
         }
         st
     }
@@ -475,7 +489,7 @@ pub fn generate(batch_seed: u64, index: u64, prof: &Profile, worlds: &[WorldInfo
         st.kind = f.kind;
         st.via = f.via;
         st.sink = f.sink;
-        if matches!(f.op, Op::Put | Op::RawTrip | Op::Swap | Op::Lazy | Op::New) || matches!(f.op, Op::Drain | Op::Splice) {
+        if matches!(f.op, Op::Put | Op::RawTrip | Op::Swap | Op::Lazy | Op::New | Op::TypeProbe) || matches!(f.op, Op::Drain | Op::Splice) {
             if !matches!(f.op, Op::Drain | Op::Splice) || f.form != 255 {
                 st.form = f.form;
             }
